@@ -2,7 +2,7 @@
 # benignlab.sh [name ...] : apply each behaviour-preserving change of /verif/benign to a SCRATCH copy (/tmp/mutlab) and run the
 # quick tier of ALL twenty checks (or $CHECKS): every one must exit 0. Results: stdout (tsv) + meta.json "alarms".
 set -u
-LAB=/tmp/mutlab
+LAB=${LAB:-/tmp/mutlab}
 mkdir -p $LAB
 if [ ! -d $LAB/repo ]; then git -C /repo worktree add -q --detach $LAB/repo HEAD; else git -C $LAB/repo checkout -q --detach $(git -C /repo rev-parse HEAD); git -C $LAB/repo checkout -q -- .; fi
 rsync -a --delete --exclude out --exclude .git /verif/ $LAB/verif/
